@@ -40,6 +40,12 @@ def delete_fields(fields, resources=None, regex=True):
                     print('WARNING: Failed to match these fields to delete {!r}'.format(not_matched))
                 resource['schema']['fields'] = new_fields
                 new_field_names[resource['name']] = [f['name'] for f in new_fields]
+                # a primary key that lost one of its fields is no key any more
+                primary_key = resource['schema'].get('primaryKey') or []
+                if isinstance(primary_key, str):
+                    primary_key = [primary_key]
+                if any(k not in new_field_names[resource['name']] for k in primary_key):
+                    del resource['schema']['primaryKey']
         yield package.pkg
 
         for resource in package:
